@@ -47,20 +47,23 @@ SameBagByGroup(exp, got) ==
 SinkOK(i, got) ==
     IF HasBatchGroupByAbove(src, nodes, i - 1) THEN SameBagByGroup(acc[i], got) ELSE SameByGroup(acc[i], got)
 
+(* Guards are written "(...) = TRUE": TLC then evaluates them as plain       *)
+(* predicates instead of splitting every disjunction inside them into       *)
+(* successor branches (2^n copies of the same successor state).             *)
 TrEnd ==
     /\ IsEv("End")
-    /\ Ln.stopErr = ""                      \* no node gave up on this input
-    /\ Len(Ln.sinks) = Len(acc)
+    /\ (Ln.stopErr = "") = TRUE             \* no node gave up on this input
+    /\ (Len(Ln.sinks) = Len(acc)) = TRUE
        (* shape of the reference outputs (acc only grows: checking it here  *)
        (* covers every earlier state of the trace)                          *)
-    /\ OutputsWellFormed /\ EdgeKindOK
-    /\ \A i \in DOMAIN acc : amb[i] \/ SinkOK(i, Ln.sinks[i])
+    /\ (OutputsWellFormed /\ EdgeKindOK) = TRUE
+    /\ (\A i \in DOMAIN acc : amb[i] \/ SinkOK(i, Ln.sinks[i])) = TRUE
        (* NoSiblingInterference on the code: in a fork the sinks are read   *)
        (* after the drain, so a branch that changed shared data shows up    *)
        (* above; in a chain a later change of a delivered message is drift. *)
-    /\ (Ln.fork => Ln.stable)
-    /\ (~Ln.stable => PrintT(<<"DRIFT", "message changed after delivery">>))
-    /\ \A k \in kfhit : PrintT(<<"KF-HIT", k>>)
+    /\ (Ln.fork => Ln.stable) = TRUE
+    /\ (IF Ln.stable THEN TRUE ELSE PrintT(<<"DRIFT", "message changed after delivery">>)) = TRUE
+    /\ (\A k \in kfhit : PrintT(<<"KF-HIT", k>>)) = TRUE
     /\ TLCSet(2, TLCGet(2) + Cardinality({i \in DOMAIN amb : amb[i]}))
     /\ UNCHANGED vars
 
